@@ -148,8 +148,21 @@ impl Property for C02 {
         }
         r
     }
-    fn replay(&self, _case: &Value) -> Option<Result<(), Failure>> {
-        // The oracle needs the generator's AST: replay goes through the tape.
-        None
+    fn replay(&self, case: &Value) -> Option<Result<(), Failure>> {
+        // A saved case carries its sources and the document the reference semantics expected:
+        // the plain regression check compares oal's output with that document (no generator involved).
+        let sources: Sources = serde_json::from_value(case.get("sources")?.clone()).ok()?;
+        let want = case.get("expected")?;
+        if !want.is_object() {
+            return None;
+        }
+        Some(match catch(|| pipeline(&sources, None)) {
+            Ok(Outcome::Document { yaml, .. }) => match yaml_to_json(&yaml) {
+                Ok(got) => equivalent(&got, want).map_err(|d| Failure::new("c02:document-differs", d)),
+                Err(e) => Err(Failure::new("c02:yaml-unreadable", e)),
+            },
+            Ok(other) => Err(Failure::new("c02:no-document", format!("expected a document, got {}", other.verdict()))),
+            Err(p) => Err(Failure::new(p.signature(), p.message)),
+        })
     }
 }
